@@ -291,6 +291,9 @@ impl RtpsWriterProxy {
                 self.acknack_count(),
             );
 
+            // The writer only accepts a NACK_FRAG whose count is higher than the last one
+            let next_nack_frag_count = self.nack_frag_count.wrapping_add(1);
+            let mut nack_frag_sent = false;
             let rtps_message = if let Some(missing_change_fragments_seq_num) = self
                 .missing_changes()
                 .take(256)
@@ -312,26 +315,35 @@ impl RtpsWriterProxy {
                     })
                     .peekable();
 
-                let base = *missing_fragments_iter
-                    .peek()
-                    .expect("At least a fragment must be missing");
-                let fragment_number_state = FragmentNumberSet::new(base, missing_fragments_iter);
-                let nack_frag_submessage = NackFragSubmessage::new(
-                    reader_guid.entity_id(),
-                    self.remote_writer_guid().entity_id(),
-                    missing_change_fragments_seq_num,
-                    fragment_number_state,
-                    self.nack_frag_count,
-                );
+                if let Some(&base) = missing_fragments_iter.peek() {
+                    // A fragment number set can describe at most 256 consecutive numbers
+                    let fragment_number_state = FragmentNumberSet::new(
+                        base,
+                        missing_fragments_iter.take_while(|frag_num| frag_num - base < 256),
+                    );
+                    nack_frag_sent = true;
+                    let nack_frag_submessage = NackFragSubmessage::new(
+                        reader_guid.entity_id(),
+                        self.remote_writer_guid().entity_id(),
+                        missing_change_fragments_seq_num,
+                        fragment_number_state,
+                        next_nack_frag_count,
+                    );
 
-                RtpsMessageWrite::from_submessages(
-                    &[
-                        &info_dst_submessage,
-                        &acknack_submessage,
-                        &nack_frag_submessage,
-                    ],
-                    reader_guid.prefix(),
-                )
+                    RtpsMessageWrite::from_submessages(
+                        &[
+                            &info_dst_submessage,
+                            &acknack_submessage,
+                            &nack_frag_submessage,
+                        ],
+                        reader_guid.prefix(),
+                    )
+                } else {
+                    RtpsMessageWrite::from_submessages(
+                        &[&info_dst_submessage, &acknack_submessage],
+                        reader_guid.prefix(),
+                    )
+                }
             } else {
                 RtpsMessageWrite::from_submessages(
                     &[&info_dst_submessage, &acknack_submessage],
@@ -340,6 +352,9 @@ impl RtpsWriterProxy {
             };
 
             message_writer.write_message(rtps_message.buffer(), self.unicast_locator_list());
+            if nack_frag_sent {
+                self.nack_frag_count = next_nack_frag_count;
+            }
         }
     }
 
